@@ -221,6 +221,7 @@ type interpreter struct {
 	powPoints       [][3]*Term
 	opaqueStrings   int
 	prints          int
+	assertKind      string // "" (assert) or "model": kind recorded for findings of the current assertion
 	nativeRegexps   map[*value]*regexp.Regexp
 	stdout          strings.Builder // what the code under test printed on this path
 	stdoutOpaque    int
@@ -738,6 +739,13 @@ func (i *interpreter) recordFinding(kind, msg, site string, m map[int]uint64) {
 	i.findings = append(i.findings, f)
 }
 
+func (i *interpreter) findingKind() string {
+	if i.assertKind != "" {
+		return i.assertKind
+	}
+	return "assert"
+}
+
 // checkAssert poses PC ∧ ¬c.
 func (i *interpreter) checkAssert(c *Term, msg string) {
 	i.asserts++
@@ -749,7 +757,7 @@ func (i *interpreter) checkAssert(c *Term, msg string) {
 		// constant false on a feasible path: need a model of the PC
 		r, m := i.fullModel(nil)
 		if r == "sat" {
-			i.recordFinding("assert", msg, "", m)
+			i.recordFinding(i.findingKind(), msg, "", m)
 		} else if r == "unknown" {
 			i.unknowns = append(i.unknowns, "assert(false) reached, PC unknown: "+msg)
 		}
@@ -771,7 +779,7 @@ func (i *interpreter) checkAssert(c *Term, msg string) {
 	case "sat":
 		fr, m := i.fullModel(nc)
 		if fr == "sat" {
-			i.recordFinding("assert", msg, "", m)
+			i.recordFinding(i.findingKind(), msg, "", m)
 		} else {
 			i.unknowns = append(i.unknowns, "violation witness could not be completed to a full model ("+fr+"): "+msg)
 		}
